@@ -465,6 +465,68 @@ def run(ctx):
     ctx.holds('R18n', m, None, 'no attribute read on a possibly-None loop element in nodes.py', construct='None element scan',
               trivial=True)
 
+    # ---- R18o: every chars node is scanned for separators
+    ctx.rule('R18o', 'split_at_chars: on every path of its loop on which the node is a chars node, the node is scanned with '
+                     'get_next_split() (no shortcut by length or content skips a node that may hold a separator)', 1)
+    sl_ = [l_ for l_ in sac.body if isinstance(l_, ast.For)]
+    if len(sl_) != 1:
+        ctx.unknown('R18o', m, sac, 'main loop of split_at_chars not found', construct='split_at_chars: scan')
+    else:
+        lv_ = sl_[0].target.id if isinstance(sl_[0].target, ast.Name) else None
+        try:
+            _has_scan = lambda s_: isinstance(s_, (ast.While, ast.For)) and any(
+                isinstance(x_, ast.Call) and call_name(x_) == 'get_next_split' for x_ in ast.walk(s_))
+            scs = symex.Walker(want_exits=True, trace=True, is_sink=lambda c_: call_name(c_) == 'get_next_split',
+                               stmt_sink=_has_scan).run_block(sl_[0].body)
+        except symex.TooManyPaths:
+            scs = None
+        if scs is None:
+            ctx.unknown('R18o', m, sl_[0], 'too many paths', construct='split_at_chars: scan')
+        else:
+            bad_ = None
+            n_ch = 0
+            for cs in scs:
+                if cs.kind not in ('end', 'continue', 'break'):
+                    continue
+                facts = symex.facts_of(cs.conds, cs.env)
+                if ('%s.isNodeType(LatexCharsNode)' % lv_, True) not in facts:
+                    continue
+                n_ch += 1
+                scanned = any(isinstance(t_[0], (ast.Call, ast.While, ast.For)) for t_ in cs.env.get('#trace', ()))
+                if not scanned and bad_ is None:
+                    bad_ = cs
+            ctx.decide('R18o', bad_ is None and n_ch > 0, m, bad_.node if bad_ and bad_.node is not None else sl_[0],
+                       'every chars-node path calls get_next_split (%d path(s))' % n_ch,
+                       'split_at_chars leaves a chars node unscanned on the path [%s]: a chars node that consists of the '
+                       'separator only (`{a},{b}`) is kept whole and the list is not split there, while regular-expression '
+                       'and callable separators still split' % (' & '.join(bad_.cond_src())[-140:] if bad_ else ''),
+                       construct='split_at_chars: scan')
+    # ---- R18p: every key=value part reaches the repeated-key policy
+    ctx.rule('R18p', 'parse_keyval_content: the only part that is skipped is an empty one; every other part -- also a bare key '
+                     'seen before -- reaches the code that applies the repeated-key policy', 1)
+    kl_ = [l_ for l_ in iter_own(pk) if isinstance(l_, ast.For)]
+    if not kl_:
+        ctx.unknown('R18p', m, pk, 'loop over the parts not found', construct='parse_keyval_content: skipped parts')
+    else:
+        try:
+            kcs = symex.Walker(want_exits=True).run_block(kl_[0].body)
+        except symex.TooManyPaths:
+            kcs = []
+        badk = None
+        for cs in kcs:
+            if cs.kind != 'continue':
+                continue
+            facts = symex.facts_of(cs.conds, cs.env)
+            empty = any(p_ and ('len(' in t_ and '== 0' in t_) for t_, p_ in facts) or any(
+                (not p_) and t_.startswith('len(') is False and False for t_, p_ in facts)
+            if not empty and badk is None:
+                badk = cs
+        ctx.decide('R18p', badk is None and bool(kcs), m, badk.node if badk else kl_[0],
+                   'only empty parts are skipped',
+                   'parse_keyval_content skips a part on the path [%s]: the repeated-key policy never sees it (`a=1,a` with '
+                   "'error' does not raise, 'last' keeps the old value, 'concatenate' drops the placeholder)"
+                   % (' & '.join(badk.cond_src())[-140:] if badk else ''), construct='parse_keyval_content: skipped parts')
+
     return 'other', (
         'Decides per site that chunk text and chunk position use the same bounds, that only '
         'top-level chars nodes are searched, that the key-value result is type-consistent across '
